@@ -161,6 +161,10 @@ int evutil_read_file_(const char *filename, char **content_out, size_t *len_out,
 #define resolv_conf_parse_line real_resolv_conf_parse_line
 #define evdns_base_parse_hosts_line real_evdns_base_parse_hosts_line
 #endif
+#ifndef C39_N
+#define C39_N 12
+#endif
+#define VPD_SMALL_COPY 28     /* sockaddr_in6 is the largest block copied with a computed length */
 #include "dns_typed_alloc_pre.h"
 #include "evdns.c"
 #include "dns_typed_alloc_post.h"
